@@ -75,7 +75,7 @@ class Outcome:
 
 class Whole:
     """a complete path through a converter that is not inside an iteration"""
-    __slots__ = ('fn', 'parent', 'passed', 'assumed', 'result', 'atoms')
+    __slots__ = ('fn', 'parent', 'passed', 'assumed', 'result', 'atoms', 'converts')
 
     def __init__(self, **kw):
         for k, v in kw.items():
@@ -292,7 +292,8 @@ class SiteEvaluator:
             else:
                 if hasattr(r, 'result'):
                     wholes.append(Whole(fn=b.short, parent=parent_kind, passed=list(getattr(r, 'passed_loops', [])), assumed=list(r.assumed),
-                                        result=freeze(r.result), atoms=atoms_of(r.result) if isinstance(r.result, (Doc, Agg)) else []))
+                                        result=freeze(r.result), atoms=atoms_of(r.result) if isinstance(r.result, (Doc, Agg)) else [],
+                                        converts=[(e[1], freeze(e[2]), e[3], e[4]) for e in r.events if e[0] == 'convert']))
         self._cache[key] = (outcomes, wholes)
         return outcomes, wholes
 
